@@ -1,8 +1,21 @@
 // Operation histories over an abstract domain (properties C03/C04/C05/C12/C16).
-// Case line:  hist <nregs> <nvars> ; <op> ; <op> ; ...
-// Variables v0..v(nvars-1) are 32-bit integers, b0 b1 (indices nvars, nvars+1) booleans.
+// Case line:  hist <nregs> <nvars> [<nbools>] ; <op> ; <op> ; ...
+// Variables v0..v(nvars-1) are 32-bit integers, b0 .. b(nbools-1) (indices nvars, nvars+1, ...;
+// nbools = 2 when the header has no third number) booleans.
 // After every state-changing op the state of the target register is printed; queries
 // print their own answer.  Answers are joined with " ; ".
+// Boolean operations (b, b1, ... are numbers of boolean variables, x any variable index):
+//   bassign r b C..      b := (constraint)            bwassign: weak_assign_bool_cst
+//   bcopy r b b1 neg     b := b1 / not b1 (neg=1)     bwcopy:   weak_assign_bool_var
+//   bbin r and|or|xor b b1 b2
+//   bassume r b neg      assume_bool(b, negated)
+//   bselect r b bc b1 b2 b := bc ? b1 : b2
+//   bforget r b          forget({b})                  havoc r x: operator-=(x)
+//   bfromint r b v       assume 0 <= v <= 1 ; b := trunc v   (value-preserving on every reading of trunc)
+//   q_bat r b            what the value knows about b: true / false / top / bottom (flat boolean
+//                        component if the domain has one, otherwise from at(b); itv:<i> if at(b)
+//                        is an interval other than [0,0] [1,1] [0,1] top)
+//   leqprobe r s t b neg r := t ; assume_bool(r, b, neg); prints "<s <= t> # <state of r> # <constraints of r>"
 #pragma once
 #include "crab_lang.hpp"
 #include "hcommon.hpp"
@@ -24,12 +37,18 @@ template <typename T> static std::string str(const T &x) {
 struct ctx {
   variable_factory_t vfac;
   std::vector<z_var> vars;
-  void init(unsigned nv) {
+  unsigned nints = 0;
+  void init(unsigned nv, unsigned nb = 2) {
     vars.clear();
+    nints = nv;
     for (unsigned i = 0; i < nv; ++i)
       vars.push_back(z_var(vfac["v" + std::to_string(i)], crab::INT_TYPE, 32));
-    vars.push_back(z_var(vfac["b0"], crab::BOOL_TYPE, 1));
-    vars.push_back(z_var(vfac["b1"], crab::BOOL_TYPE, 1));
+    for (unsigned i = 0; i < nb; ++i)
+      vars.push_back(z_var(vfac["b" + std::to_string(i)], crab::BOOL_TYPE, 1));
+  }
+  const z_var &bvar(long b) const {
+    if (b < 0 || nints + b >= vars.size()) { std::cerr << "bad boolean index\n"; std::exit(3); }
+    return vars[nints + b];
   }
   std::string vname(const z_var &v) const {
     for (size_t i = 0; i < vars.size(); ++i)
@@ -82,13 +101,39 @@ template <typename Dom> std::string show_state(ctx &c, const Dom &d) {
   return r;
 }
 
+// what the value knows about the boolean variable b
+template <typename Dom>
+auto bat_impl(Dom &d, const z_var &b, int) -> decltype(d.first().get_bool(b), std::string()) {
+  if (d.is_bottom()) return "bottom";
+  auto v = d.first().get_bool(b);
+  return v.is_bottom() ? "bottom" : v.is_true() ? "true" : v.is_false() ? "false" : "top";
+}
+template <typename Dom> std::string bat_impl(Dom &d, const z_var &b, long) {
+  if (d.is_bottom()) return "bottom";
+  itv_t i = d.at(b);
+  if (i.is_bottom()) return "bottom";
+  if (i.is_top()) return "top";
+  std::string s = str(i);
+  if (s == "[1, 1]") return "true";
+  if (s == "[0, 0]") return "false";
+  if (s == "[0, 1]") return "top";
+  return "itv:" + s;
+}
+template <typename Dom> std::string show_csts(ctx &c, const Dom &d) {
+  csts_t cs = d.to_linear_constraint_system();
+  std::string s = "{"; bool f = true;
+  for (auto const &x : cs) { if (!f) s += ","; f = false; s += show_cst(c, x); }
+  return s + "}";
+}
+
 template <typename Dom> std::string run_history(const std::vector<std::string> &line, const Dom &topv) {
   // split on ";"
   std::vector<std::vector<std::string>> ops(1);
   for (auto &s : line) { if (s == ";") ops.emplace_back(); else ops.back().push_back(s); }
   if (ops[0].size() < 3 || ops[0][0] != "hist") return "HARNESS-ERROR";
   unsigned nregs = std::stoul(ops[0][1]), nv = std::stoul(ops[0][2]);
-  ctx c; c.init(nv);
+  unsigned nb = ops[0].size() > 3 ? std::stoul(ops[0][3]) : 2;
+  ctx c; c.init(nv, nb);
   std::vector<Dom> regs(nregs, topv.make_top());
   std::string out;
   auto emit = [&](const std::string &s) { if (!out.empty()) out += " ; "; out += s; };
@@ -105,6 +150,16 @@ template <typename Dom> std::string run_history(const std::vector<std::string> &
       emit(s + "}"); continue;
     }
     if (op == "q_at") { long r = k.nexti(); emit(show_state(c, regs[r])); continue; }
+    if (op == "q_bat") { long r = k.nexti(); long b = k.nexti(); emit(bat_impl(regs[r], c.bvar(b), 0)); continue; }
+    if (op == "leqprobe") {
+      long r = k.nexti(), s = k.nexti(), t = k.nexti(), b = k.nexti(), neg = k.nexti();
+      bool le = regs[s] <= regs[t];
+      Dom tmp(regs[t]);
+      tmp.assume_bool(c.bvar(b), neg != 0);
+      regs[r] = tmp;
+      emit(std::string(le ? "true" : "false") + " # " + show_state(c, regs[r]) + " # " + show_csts(c, regs[r]));
+      continue;
+    }
     long r = k.nexti();
     Dom &d = regs[r];
     if (op == "top") d.set_to_top();
@@ -160,6 +215,34 @@ template <typename Dom> std::string run_history(const std::vector<std::string> &
         for (long j = 0; j < n; ++j) ts.add(bound<z_number>(k.nextz()));
         Dom tmp = regs[s].widening_thresholds(regs[t], ts); regs[r] = tmp;
       }
+    }
+    else if (op == "bassign" || op == "bwassign") {
+      long b = k.nexti(); cst_t x = parse_cst(c, k);
+      if (op == "bassign") d.assign_bool_cst(c.bvar(b), x); else d.weak_assign_bool_cst(c.bvar(b), x);
+    }
+    else if (op == "bcopy" || op == "bwcopy") {
+      long b = k.nexti(), b1 = k.nexti(), neg = k.nexti();
+      if (op == "bcopy") d.assign_bool_var(c.bvar(b), c.bvar(b1), neg != 0);
+      else d.weak_assign_bool_var(c.bvar(b), c.bvar(b1), neg != 0);
+    }
+    else if (op == "bbin") {
+      std::string o = k.next(); long b = k.nexti(), b1 = k.nexti(), b2 = k.nexti();
+      crab::domains::bool_operation_t bo = o == "and" ? crab::domains::OP_BAND :
+          o == "or" ? crab::domains::OP_BOR : crab::domains::OP_BXOR;
+      d.apply_binary_bool(bo, c.bvar(b), c.bvar(b1), c.bvar(b2));
+    }
+    else if (op == "bassume") { long b = k.nexti(), neg = k.nexti(); d.assume_bool(c.bvar(b), neg != 0); }
+    else if (op == "bselect") {
+      long b = k.nexti(), bc = k.nexti(), b1 = k.nexti(), b2 = k.nexti();
+      d.select_bool(c.bvar(b), c.bvar(bc), c.bvar(b1), c.bvar(b2));
+    }
+    else if (op == "bforget") { long b = k.nexti(); std::vector<z_var> vs; vs.push_back(c.bvar(b)); d.forget(vs); }
+    else if (op == "havoc") { long x = k.nexti(); d -= c.vars[x]; }
+    else if (op == "bfromint") {
+      long b = k.nexti(), v = k.nexti();
+      csts_t cs; cs += cst_t(lin_t(c.vars[v]) >= z_number(0)); cs += cst_t(lin_t(c.vars[v]) <= z_number(1));
+      d += cs;
+      d.apply(crab::domains::OP_TRUNC, c.bvar(b), c.vars[v]);
     }
     else if (op == "normalize") { d.normalize(); }
     else if (op == "minimize") { d.minimize(); }
